@@ -672,3 +672,55 @@ def c11(tier, seed):
 
 from .accept_checks import c08, c09, c18  # noqa: E402
 REGISTRY.update({'C08': c08, 'C09': c09, 'C10': c10, 'C11': c11, 'C18': c18})
+
+
+# ----------------------------------------------------------------------------- C07 partial lexing
+def partial_post(P, d, f, r, info):
+    """native confirmation of a partial-mode failure: run the real partial lexer on the model's prefix and look for
+    a concrete continuation that changes a committed item / check that None was returned"""
+    data = bytes.fromhex(info['input_hex'])
+    native = info.get('native') or []
+    conc = ref.Concrete(P.tables[d.id], d.utf8)
+    if info.get('native_panic'):
+        return True
+    committed = [x for x in native if x[0] != 'none']
+    if 'returned None' in f['what']:
+        # the real lexer must indeed stop with None before the end
+        nn = [x for x in native if x[0] == 'none']
+        info['confirmation'] = 'native partial lexer returned None at %s' % (nn[0][1:] if nn else None)
+        return bool(nn) and nn[0][1] < len(data) + 1
+    if 'committed' in f['what']:
+        alphabet = sorted(set(data) | {0x20, 0x61, 0x30, 0x0a})
+        import itertools as it
+        for n in (1, 2):
+            for ext in it.product(alphabet, repeat=n):
+                full = data + bytes(ext)
+                if d.utf8:
+                    try:
+                        full.decode('utf8')
+                    except UnicodeDecodeError:
+                        continue
+                exp = [e for e in conc.tokens(full) if not (e[0] == 'item' and e[1] == ('skip',))]
+                for g, e in zip(committed, exp):
+                    gs = (g[1], g[2])
+                    es = (e[2], e[3]) if e[0] == 'item' else (e[1], e[2])
+                    if gs != es or (g[0] == 'ok') != (e[0] == 'item'):
+                        info['confirmation'] = f'continuation {bytes(ext)!r} changes the committed item {g} into {e}'
+                        return True
+        return False
+    return None
+
+
+def c07(tier, seed):
+    tp = tier_params(tier)
+    sel = sel_for(tier, 'look')
+    return lex_family('C07', tier, seed, relevant={'C07', 'C01', 'C02', 'C03'}, select=lambda ds: [d for d in sel(ds)], name='lex',
+                      partial=True, post=partial_post,
+                      rule='one case = one leaf of next() on a partial lexer over a symbolic prefix (bytes and length symbolic); '
+                           'non-trivial = anything but the immediate None on empty input', **tp)
+
+
+REGISTRY['C07'] = c07
+
+from .history import c14  # noqa: E402
+REGISTRY['C14'] = c14
